@@ -26,6 +26,9 @@ use std::io::Write;
 #[global_allocator]
 static GLOBAL: alloc::SimAlloc = alloc::SimAlloc;
 
+/// Per-worker cap of the exact distinct-case sets (memory bound for 10^8-run batches).
+const SET_CAP: usize = 250_000;
+
 struct Args {
     pos: Vec<String>,
     kv: BTreeMap<String, String>,
@@ -209,6 +212,7 @@ fn cmd_run(a: &Args) -> i32 {
     let progress = a.kv.get("progress").map(|p| std::fs::File::create(p).expect("progress file"));
     let trace_cases = a.kv.contains_key("trace-cases");
     let max_secs = a.u64("max-secs", 0);
+    let want_digests = a.kv.contains_key("digests");
     let t0 = std::time::Instant::now();
     init();
 
@@ -238,14 +242,25 @@ fn cmd_run(a: &Args) -> i32 {
         }
         match run_case(&case, &mut stats, ctx.miri()) {
             Ok(o) => {
-                stats.fingerprints.insert(o.fp);
+                // exact sets up to a cap per worker; beyond it the count is a lower bound (and says so)
+                if stats.fingerprints.len() < SET_CAP {
+                    stats.fingerprints.insert(o.fp);
+                } else {
+                    stats.inc("capped.fingerprints_not_recorded");
+                }
                 if o.nontrivial {
                     stats.inc("runs.nontrivial");
                     if !matches!(case, Case::Par(_)) {
-                        stats.distinct.insert(o.fp);
+                        if stats.distinct.len() < SET_CAP {
+                            stats.distinct.insert(o.fp);
+                        } else {
+                            stats.inc("capped.distinct_not_recorded");
+                        }
                     }
                 }
-                stats.digests.push((i, o.digest));
+                if want_digests {
+                    stats.digests.push((i, o.digest));
+                }
             },
             Err(v) => {
                 // minimise, confirm, persist
